@@ -224,6 +224,47 @@ def builder_histories(ctx):
     ctx.nt("builder-histories")
 
 
+def numeric_type_cases(ctx):
+    """the same request written with int and with float arguments (spacing=10 vs 10.0, gate_spacing=2 vs 2.0, defaults omitted vs spelled
+    out): the documented geometry does not depend on the numeric type of a spacing"""
+    from bloqade.shuttle.stdlib.layouts import single_col_zone, two_col_zone
+    from bloqade.shuttle.stdlib import spec as old_spec
+    n_ok = 0
+    N = ctx.pick(3, 5)
+
+    def same(A, B):
+        za, zb = A.layout.static_traps, B.layout.static_traps
+        return (sorted(za) == sorted(zb) and all(tuple(za[k].shape) == tuple(zb[k].shape) and [float(v) for v in za[k].x_positions] == [float(v) for v in zb[k].x_positions]
+                                                 and [float(v) for v in za[k].y_positions] == [float(v) for v in zb[k].y_positions] for k in za))
+    for nx, ny in itertools.product(range(1, N + 1), repeat=2):
+        for fn_name, fn, variants in (
+                ("single_col_zone.get_spec", single_col_zone.get_spec, [((nx, ny, 10), (nx, ny, 10.0)), ((nx, ny), (nx, ny, 10.0)), ((nx, ny, 3), (nx, ny, 3.0))]),
+                ("stdlib.spec.single_zone_spec", old_spec.single_zone_spec, [((nx, ny, 10), (nx, ny, 10.0)), ((nx, ny, 3), (nx, ny, 3.0))]),
+                ("two_col_zone.get_spec", two_col_zone.get_spec,
+                 [((nx, ny, 10, 2.5), (nx, ny, 10.0, 2.5)), ((nx, ny, 10, 0.5), (nx, ny, 10.0, 0.5)), ((nx, ny, 2.5, 2), (nx, ny, 2.5, 2.0)),
+                  ((nx, ny, 10, 2), (nx, ny, 10.0, 2.0)), ((nx, ny, 1, 1.5), (nx, ny, 1.0, 1.5)), ((nx, ny, 7, 1.25), (nx, ny, 7.0, 1.25))])):
+            for a_int, a_float in variants:
+                rep = {"builder": fn_name, "args": list(a_int), "same_request_in_floats": list(a_float)}
+                ctx.evaluations += 1
+                try:
+                    B = fn(*a_float)
+                except Exception:
+                    continue
+                try:
+                    A = fn(*a_int)
+                except Exception as e:
+                    ctx.fail({"builder": fn_name, "problem": "raises", "numeric_type": "int argument"}, rep,
+                             f"{fn_name}{a_int} raises {type(e).__name__}: {str(e)[:80]} while {fn_name}{a_float} builds a spec")
+                    continue
+                if not same(A, B):
+                    ctx.fail({"builder": fn_name, "problem": "geometry", "numeric_type": "int argument"}, rep,
+                             f"{fn_name}{a_int} and {fn_name}{a_float} (the same request) have different zones / site coordinates")
+                else:
+                    n_ok += 1
+                    ctx.nt(("numeric", fn_name, a_int))
+    ctx.count("builder requests written with int arguments: same geometry as with floats", n_ok)
+
+
 def run(ctx):
     warnings.simplefilter("ignore")
     from bloqade.shuttle.stdlib.layouts import single_col_zone, two_col_zone
@@ -264,6 +305,7 @@ def run(ctx):
                 ctx.nt(("two_col", nx, ny, s, gs))
     builder_histories(ctx)
     inexact_spacing_cases(ctx)
+    numeric_type_cases(ctx)
     B, Lg = base_spec.get_base_spec(), logical.get_spec()
     oracle_gemini(ctx, B, Lg)
     cases.append(("show_spec gemini_base_spec", show_spec(B), "gemini base"))
